@@ -32,6 +32,9 @@ RULE = (
     "(instructions in front of a block's last one, or a whole code block "
     "that code follows: uses of A disappear or move, labels A/B slide)."
 )
+RULE += (
+    " 30% of the valid scenarios continue with a second context that deletes an instruction in front of a control-flow use of A and redirects B once more; one case in 40 is a hand-built big-endian MIPS32 module whose transfers (j, b, bnez, jal) are followed by their delay slot."
+)
 ASSUMPTIONS = [
     "conversion table transcribed from the ABI rule docstrings of abi.py (x86-64 ELF PIE: GOT|PCREL for code refs, PLT for control flow; non-PIE: PLT; ARM64 PIE: GOT (+LO12))",
     "SymAddrAddr uses are not generated (retargeting them is documented as NotImplemented)",
